@@ -39,6 +39,7 @@ type Harness struct {
 	Tier     string            `json:"tier"`     // quick | thorough (thorough tier runs quick ones too)
 	Mode     string            `json:"mode"`     // bv | int
 	BigW     int               `json:"bigw"`
+	LazyBig  bool              `json:"lazy_big_bytes,omitempty"`
 	Unwind   int               `json:"unwind"`
 	Cuts     []string          `json:"cuts"`
 	Redirect map[string]string `json:"redirect"`
@@ -161,7 +162,7 @@ func (h *Harness) config() symex.Config {
 	for _, c := range h.Cuts {
 		cuts[c] = true
 	}
-	return symex.Config{Mode: h.Mode, BigW: h.BigW, Unwind: h.Unwind, Cuts: cuts, Redirect: h.Redirect}
+	return symex.Config{Mode: h.Mode, BigW: h.BigW, Unwind: h.Unwind, Cuts: cuts, Redirect: h.Redirect, LazyBigBytes: h.LazyBig}
 }
 
 func main() {
